@@ -1426,9 +1426,15 @@ def report_broken(ctx, prop_files):
 # the statement-level engine registers its files here (keys of STMT_KEYS are rendered by py2lean_stmt.render_file)
 STMT_KEYS = set()
 from . import py2lean_stmt  # noqa: E402
-for _k, _v in py2lean_stmt.FILES.items():
-    FILES[_k] = _v[:5]
-    STMT_KEYS.add(_k)
+
+
+def _register():
+    for k, v in getattr(py2lean_stmt, "FILES", {}).items():
+        FILES[k] = v[:5]
+        STMT_KEYS.add(k)
+
+
+_register()
 
 
 if __name__ == "__main__":
